@@ -39,6 +39,12 @@ def scenarios(ctx):
         {"retryMax": 2, "crossRetry": 1, "retryGet": False, "get": False, "nobody": False, "subA": ["connect", "connect"], "subB": ["ok"], "finishAt": 0, "conc": 3},
         {"retryMax": 0, "crossRetry": 1, "retryGet": True, "get": True, "nobody": True, "subA": ["timeout"], "subB": ["readhdr"], "finishAt": 0, "conc": 1},
     ]
+    for f in fixed:
+        f.setdefault("finishAtEnd", False)
+    fixed.append({"retryMax": 1, "crossRetry": 0, "retryGet": False, "get": True, "nobody": True, "subA": ["ok"], "subB": [],
+                  "finishAt": 0, "finishAtEnd": True, "conc": 2})
+    fixed.append({"retryMax": 2, "crossRetry": 1, "retryGet": True, "get": True, "nobody": True, "subA": ["readhdr", "ok"], "subB": ["ok"],
+                  "finishAt": 0, "finishAtEnd": True, "conc": 1})
     return fixed + cases
 
 
@@ -67,6 +73,8 @@ def run(ctx, cases, decisive):
         c = by_id[b["cid"]]
         ev = events[b["l"] - 1]
         shape = "finishAt=%s" % ("0" if c["finishAt"] == 0 else ("1" if c["finishAt"] == 1 else "later"))
+        if c.get("finishAtEnd"):
+            shape += "+end"
         sig = "%s/%s/%s" % (b["why"], ev["ev"], shape)
         mine = [dict(e, **extra.get(i + 1, {})) for i, e in enumerate(events) if e["cid"] == b["cid"]]
         ctx.report(sig, "scenario %s; recorded: %s" % (json.dumps(c), str(mine)[:1500]), case=c,
